@@ -211,6 +211,28 @@ func (ex *Exec) branch(cond *Term) bool {
 	return true
 }
 
+// chooseN makes an n-way nondeterministic choice without consulting the solver (the
+// caller guarantees every alternative is feasible).
+func (ex *Exec) chooseN(n int) int {
+	if n <= 1 {
+		return 0
+	}
+	if ex.pos < len(ex.prefix) {
+		d := ex.prefix[ex.pos]
+		ex.pos++
+		ex.trace = append(ex.trace, d)
+		return d
+	}
+	for k := n - 1; k >= 1; k-- {
+		sib := make([]int, len(ex.trace)+1)
+		copy(sib, ex.trace)
+		sib[len(ex.trace)] = k
+		ex.res.Forks = append(ex.res.Forks, sib)
+	}
+	ex.trace = append(ex.trace, 0)
+	return 0
+}
+
 // concretize picks a concrete value for t in [0,n) by forking.
 func (ex *Exec) concretize(t *Term, n int, what string) int {
 	if t.isConst {
